@@ -1,6 +1,6 @@
 import TexelVerif.Chess.SpecLemmas
 import TexelVerif.Chess.KingRay
-import TexelVerif.Chess.TexelGenNodup
+import TexelVerif.Chess.TexelGenEvade
 /-!
 # C01 — generated legal moves are exactly the legal moves of chess
 
@@ -170,6 +170,22 @@ theorem texel_pseudoLegal_nodup (p : Pos) (k : Sq) (h : Texel.GenWF p k) : (Texe
     legal moves of chess.** -/
 theorem texel_legal_eq (p : Pos) (k : Sq) (h : Texel.GenWF p k) :
     (Texel.removeIllegal p k (Texel.pseudoLegalMoves p k)).Perm (genLegal p) := Texel.texel_legal_perm p k h
+
+/-- **`MoveGen::pseudoLegalCaptures`** (moveGen.cpp:386-456) omits no pseudo-legal — hence no legal — capture of its class
+    (captures incl. en passant, promotion piece queen or knight) -/
+theorem texel_captures_complete (p : Pos) (k : Sq) (h : Texel.GenWF p k) (m : Mv) (hp : pseudo p m = true)
+    (hc : capClass p m = true) : m ∈ Texel.pseudoLegalCaptures p k := Texel.captures_complete p k h m hp hc
+
+/-- **`MoveGen::checkEvasions`** (moveGen.cpp:148-250) omits no legal move when the side to move is in check: a legal reply
+    other than a king move or an en-passant capture must capture the only checking piece or land between it and the king
+    (`kingThreats` has one bit, `validTargets = kingThreats | squaresBetween`).  Extra hypothesis: the kings are not adjacent. -/
+theorem texel_evasions_complete (p : Pos) (k : Sq) (h : Texel.GenWF p k)
+    (hkk : ∀ q, p.b[q] = Texel.pc (!p.wtm) 1 → Texel.kingGeom k q = false)
+    (hchk : inCheck p.b p.wtm = true) (m : Mv) (hl : legalB p m = true) : m ∈ Texel.checkEvasions p k :=
+  Texel.evasions_complete p k h hkk hchk m hl
+
+theorem texel_kingsApart_of_check (p : Pos) (k : Sq) (h : Texel.kingsApartB p k = true) :
+    ∀ q, p.b[q] = Texel.pc (!p.wtm) 1 → Texel.kingGeom k q = false := Texel.kingsApart_of_b p k h
 
 /-- the decidable form of the hypotheses, evaluated by the driver on every tested position -/
 theorem texel_genWF_of_check (p : Pos) (k : Sq) (h : Texel.genWFb p k = true) : Texel.GenWF p k := Texel.genWF_of_b p k h
